@@ -138,7 +138,8 @@ func (e EnumSchema[S, T]) ValidateType(data T) error {
 }
 
 func (e EnumSchema[S, T]) SerializeType(data T) (any, error) {
-	return data, e.Validate(data)
+	// Serialize converts the value to its serialized type (e.g. a named string type to string).
+	return e.Serialize(data)
 }
 
 func (e EnumSchema[S, T]) asType(d any) (S, T, error) {
